@@ -1,5 +1,5 @@
 /*VERIF
-{ "tu": "src/time.c", "enforce": "dispatch_time", "seq": true, "timeout": 120,
+{ "tu": "src/time.c", "enforce": "dispatch_time", "props": ["C12", "C08"], "seq": true, "timeout": 120,
   "stub_note": "clock reads return an arbitrary reading in [1, 2^62-2]",
   "assumes": ["clock readings are in [1, 2^62-2] ns (wall: [3, 2^62-2])"] }
 VERIF*/
